@@ -260,6 +260,7 @@ where
   /// This is a zero-cost conversion. The `Drop` implementation of the
   /// original `AsyncTopicReceiver` is not called.
   pub fn to_sync(self) -> TopicReceiver<K, T> {
+    let closed = self.closed.load(Ordering::Relaxed);
     // Use ptr::read to move fields and mem::forget to prevent drop.
     let dispatcher = unsafe { std::ptr::read(&self.dispatcher) };
     let consumer = unsafe { std::ptr::read(&self.consumer) };
@@ -271,7 +272,7 @@ where
       consumer,
       producer_mailbox,
       subscriptions,
-      closed: AtomicBool::new(false),
+      closed: AtomicBool::new(closed),
     }
   }
 }
